@@ -428,6 +428,31 @@ def diagnostics_channel(res, prog, c):
                 res.violation('C20.2b', 'C20.2b|%s' % opt, f, t.get('line'), 'with --%s the subscriber writes to %s: a run that fails (exit status 1 after error!) leaves standard error empty' % (opt.replace('_', '-'), show(w)[:100]))
 
 
+def distinct_paths(res, prog, c):
+    """C20.9: "never ends by panic, abort or signal".  The minidump is memory-mapped and the report files are opened with
+    File::create, which truncates: if --output-file or --cyborg names the minidump itself the mapping loses its pages and
+    the process dies by SIGBUS (and if the two report options name one file, one report overwrites the other).  The
+    destinations must be compared with the input path (and with each other) before they are opened."""
+    res.rule('C20.9', 0, floor=1, note='report destinations are checked against the minidump path and each other before File::create')
+    f = c.fn(MAIN)
+    if f is None:
+        res.error('C20.9', 'main_result body not found')
+        return
+    creates = [(b, t) for b, t in f.calls() if f.callee(t) in ('std::fs::File::create', 'std::fs::File::create_new') and re.search(r'\.(output_file)\b', show(f.expand(f.call_tree(t))))]
+    res.rule('C20.9', 1)
+    compared = False
+    for b in sorted(f.reach):
+        t = f.blocks[b]['t']
+        if t['k'] == 'call':
+            n = f.callee(t) or ''
+            if re.search(r'PartialEq.*::(eq|ne)$|fs::canonicalize$|same_file', n):
+                a = show(f.expand(f.call_tree(t)))
+                if ('output_file' in a or 'cyborg' in a) and ('minidump' in a or 'output_file' in a and 'cyborg' in a):
+                    compared = True
+    if creates and not compared:
+        res.violation('C20.9', 'C20.9|same-path', f, creates[0][1].get('line'), 'the report file is created (truncated) without comparing its path with the memory-mapped minidump: `--output-file x.dmp x.dmp` kills the process with SIGBUS and destroys the input; `--cyborg p --output-file p` loses one report')
+
+
 def feature_defaults(res, prog, c):
     """C20.7b: the option set picked by --features is the library's, and a command-line flag can only add to it.  After
     `options = ProcessorOptions::stable_basic() / stable_all() / unstable_all()`, a boolean feature field is written only
@@ -522,6 +547,7 @@ def run(tier, t0):
     raw_dump(res, prog, c)
     options_reach_library(res, prog, c)
     diagnostics_channel(res, prog, c)
+    distinct_paths(res, prog, c)
     feature_defaults(res, prog, c)
     destinations(res, prog, c)
     # backing rule for the stats getters (C20.subscriptions)
